@@ -356,6 +356,21 @@ pub fn generate(project: &Project, seed: u64, max_len: usize, check_every_step: 
     if enabled.len() < 3 {
         enabled = edits::EDIT_KINDS.to_vec();
     }
+    // A third of the histories stays close to compiling programs (edits that rarely break the
+    // build, frequent reverts): defects of the later stages (lowering, Sierra) are only visible
+    // while the project still compiles.
+    let gentle = rng.chance(1, 3);
+    if gentle {
+        let safe = [
+            "insert_comment_line", "insert_blank_lines", "reindent_line", "append_trailing_comment", "swap_adjacent_lines",
+            "swap_adjacent_items", "rename_everywhere", "change_literal", "move_item", "insert_doc_comment", "prepend_header",
+            "toggle_pub", "edit_string_literal", "shift_space_in_line", "change_attribute", "add_variant_or_member",
+        ];
+        enabled = edits::EDIT_KINDS.iter().copied().filter(|k| safe.contains(k)).filter(|_| rng.chance(4, 5)).collect();
+        if enabled.is_empty() {
+            enabled = vec!["insert_comment_line", "change_attribute"];
+        }
+    }
     // Experiments: restrict the edit kinds (never set by the registered checks).
     if let Ok(only) = std::env::var("VERIF_C13_ONLY_KINDS") {
         let v: Vec<&'static str> = edits::EDIT_KINDS.iter().copied().filter(|k| only.split(',').any(|o| o == *k)).collect();
@@ -466,7 +481,7 @@ pub fn generate(project: &Project, seed: u64, max_len: usize, check_every_step: 
             let special = rng.below(100);
             let (kind, content): (String, String) = if last_good.contains_key(&file) && special < 35 {
                 ("repair_restore_last_good".into(), last_good[&file].clone())
-            } else if special < 5 {
+            } else if special < 5 || (gentle && special < 22) {
                 ("revert_to_original".into(), original.clone())
             } else if special < 8 {
                 let other = &files[rng.below(files.len())];
